@@ -2,7 +2,7 @@
    the index algebra every strategy routes its scores through (equality of the numeric scores
    themselves across representations is validated by paired runs). *)
 From Coq Require Import ZArith List Bool.
-From V Require Import Base.OptOrder Model.Sel Model.PoolQuery Proofs.AddressingProofs.
+From V Require Import Base.OptOrder Model.Sel Model.PoolQuery Proofs.SelProofs Proofs.AddressingProofs.
 Import ListNotations.
 Close Scope Z_scope.
 
@@ -30,6 +30,36 @@ Theorem C08_non_candidates_nan : forall (f : nat -> val) n cs j,
   nth j (scatter cs (map f cs) (repeat None n)) None = None.
 Proof. exact non_candidates_nan. Qed.
 Print Assumptions C08_non_candidates_nan.
+
+(* candidates as feature rows vs the same candidates as indices: the score of the i-th candidate is
+   reported at position i resp. at position mapping[i] - the same utilities for the same samples *)
+Theorem C08_rows_vs_indices : forall (f : nat -> val) n cs i,
+  NoDup cs -> Forall (fun c => c < n) cs -> i < length cs ->
+  nth (nth i cs 0) (scatter cs (map f cs) (repeat None n)) None =
+  nth i (scatter (seq 0 (length cs)) (map f cs) (repeat None (length cs))) None.
+Proof. exact rows_vs_indices. Qed.
+Print Assumptions C08_rows_vs_indices.
+
+(* ... and the same selection whenever the best candidate is unique, whatever the tie-breaking
+   noise of the two calls *)
+Theorem C08_same_selection_when_best_unique : forall (f : nat -> val) n cs nz nz' (m : Z) i,
+  NoDup cs -> Forall (fun c => c < n) cs -> i < length cs ->
+  f (nth i cs 0) = Some m ->
+  (forall j, j < length cs -> forall k, f (nth j cs 0) = Some k -> (k < m)%Z \/ j = i) ->
+  noise_ok n nz -> noise_ok (length cs) nz' ->
+  rand_argmax (scatter cs (map f cs) (repeat None n)) nz = nth i cs 0 /\
+  rand_argmax (scatter (seq 0 (length cs)) (map f cs) (repeat None (length cs))) nz' = i.
+Proof. exact same_selection_when_unique. Qed.
+Print Assumptions C08_same_selection_when_best_unique.
+
+(* reordering the rows of (X, y) by pi reorders the utilities accordingly (sample-wise scores) *)
+Theorem C08_permutation_equivariance : forall (f : nat -> val) (pi : nat -> nat) n cs cs' j,
+  NoDup cs -> NoDup cs' -> Forall (fun c => c < n) cs -> Forall (fun c => c < n) cs' ->
+  (forall i, In i cs' <-> In (pi i) cs) -> j < n -> pi j < n ->
+  nth j (scatter cs' (map (fun i => f (pi i)) cs') (repeat None n)) None =
+  nth (pi j) (scatter cs (map f cs) (repeat None n)) None.
+Proof. exact permutation_equivariance. Qed.
+Print Assumptions C08_permutation_equivariance.
 
 (* Quire's kernel book-keeping: the row to delete is the sample's position among the unlabeled samples *)
 Theorem C08_quire_position : forall lab s, nth_error lab s = Some false ->
